@@ -129,6 +129,8 @@ class BaseProtocol(asyncio.Protocol):
                 ConnectionError("Connection lost"),
                 exc,
             )
+            # Every writer that waited for it may have been cancelled since
+            waiter.exception()
 
     async def _drain_helper(self) -> None:
         if self.transport is None:
@@ -139,4 +141,5 @@ class BaseProtocol(asyncio.Protocol):
         if waiter is None:
             waiter = self._loop.create_future()
             self._drain_waiter = waiter
-        await waiter
+        # The waiter is shared: one cancelled writer must not cancel the others
+        await asyncio.shield(waiter)
